@@ -495,6 +495,38 @@ func ruleResliceZero(c *Ctx) {
 		info := pk.TypesInfo
 		fname := pkgShort(pk.Types) + "." + funcName(fd)
 		k := 0
+		ownBufferCallers = func(callee *ast.FuncDecl, pi int, depth int) (bool, string) {
+			self, _ := info.Defs[callee.Name].(*types.Func)
+			if self == nil || self.Exported() {
+				return false, ""
+			}
+			n, all := 0, true
+			for _, file := range pk.Syntax {
+				for _, d := range file.Decls {
+					fd2, ok := d.(*ast.FuncDecl)
+					if !ok || fd2.Body == nil {
+						continue
+					}
+					ast.Inspect(fd2.Body, func(m ast.Node) bool {
+						call, ok := m.(*ast.CallExpr)
+						if !ok {
+							return true
+						}
+						if g := calleeFunc(info, call); g == self && pi < len(call.Args) {
+							n++
+							if ok2, _ := ownBuffer(info, fd2, call.Args[pi], depth+1); !ok2 {
+								all = false
+							}
+						}
+						return true
+					})
+				}
+			}
+			if n > 0 && all {
+				return true, "handed in by every caller as its own buffer"
+			}
+			return false, ""
+		}
 		ast.Inspect(fd.Body, func(nd ast.Node) bool {
 			se, ok := nd.(*ast.SliceExpr)
 			if !ok || se.Low != nil || se.High == nil || se.Slice3 {
@@ -527,6 +559,10 @@ func ruleResliceZero(c *Ctx) {
 		})
 	})
 }
+
+// ownBufferCallers (set by the rule for the package being read): every call of fd in its package passes, at parameter
+// position pi, a buffer that is the calling function's own.
+var ownBufferCallers func(fd *ast.FuncDecl, pi int, depth int) (bool, string)
 
 // ownBuffer: e names a slice this function made itself (make / literal / nil / append of such / its own reslice),
 // looking through every assignment of the local.
@@ -569,8 +605,19 @@ func ownBuffer(info *types.Info, fd *ast.FuncDecl, e ast.Expr, depth int) (bool,
 		if o == nil {
 			return false, "unknown"
 		}
-		if paramIndex(fd, info, o) >= 0 {
+		if pi := paramIndex(fd, info, o); pi >= 0 {
+			// an unexported function: the buffer is the callers' own when every call in the package hands in one
+			if ownBufferCallers != nil && depth <= 2 {
+				if ok, why := ownBufferCallers(fd, pi, depth); ok {
+					return true, why
+				}
+			}
 			return false, "a parameter"
+		}
+		if _, isArr := o.Type().Underlying().(*types.Array); isArr && paramIndex(fd, info, o) < 0 {
+			if v, ok := o.(*types.Var); ok && !v.IsField() && !(v.Pkg() != nil && v.Parent() == v.Pkg().Scope()) {
+				return true, "a local array"
+			}
 		}
 		if v, ok := o.(*types.Var); ok && (v.IsField() || (v.Pkg() != nil && v.Parent() == v.Pkg().Scope())) {
 			return false, "a field or package variable"
@@ -657,7 +704,11 @@ func mentionsOnlySelf(info *types.Info, rhs ast.Expr, o types.Object) bool {
 		return ok && info.ObjectOf(id) == o
 	case *ast.CallExpr:
 		if id, ok := x.Fun.(*ast.Ident); ok && id.Name == "append" && len(x.Args) > 0 {
-			a, ok := ast.Unparen(x.Args[0]).(*ast.Ident)
+			a0 := ast.Unparen(x.Args[0])
+			if sl, isSl := a0.(*ast.SliceExpr); isSl {
+				a0 = ast.Unparen(sl.X) // append(x[:0], …)
+			}
+			a, ok := a0.(*ast.Ident)
 			return ok && info.ObjectOf(a) == o
 		}
 	}
